@@ -405,3 +405,168 @@ def affects_result(fnode, stmt, rel=None):
     if isinstance(stmt, ast.Return):
         return True
     return False
+
+
+def _atom_holds_for_len(atom_text, polarity, seq_text, n):
+    """Truth of a guard atom about len(seq) / truthiness of seq when the sequence has n elements (None: unrelated)."""
+    from .norm import u
+
+    if atom_text == seq_text:
+        return (n > 0) == polarity
+    src = atom_text.replace("len(%s)" % seq_text, str(n))
+    if src == atom_text:
+        return None
+    try:
+        tree = ast.parse(src, mode="eval")
+    except SyntaxError:
+        return None
+    for x in ast.walk(tree):
+        if not isinstance(x, (ast.Expression, ast.Compare, ast.Constant, ast.cmpop, ast.Load)):
+            return None
+    try:
+        return bool(eval(compile(tree, "<len>", "eval"), {"__builtins__": {}})) == polarity
+    except Exception:
+        return None
+
+
+def edges_implying_short(cfg, seq_text, max_len):
+    """CFG successor nodes of branch edges on which `seq_text` is known to have at most ``max_len`` elements
+    (e.g. the true edge of `len(positions) < 2`, the false edge of `positions`): a loop over seq[max_len:] would do nothing there."""
+    from .norm import atoms
+
+    out = set()
+    for t in cfg.g.nodes:
+        if cfg.kind(t) != "test":
+            continue
+        for lab in ("true", "false"):
+            ats = atoms(cfg.ast(t), lab == "true")
+            for at, pol in ats:
+                vals = [_atom_holds_for_len(at, pol, seq_text, n) for n in range(0, 8)]
+                if None in vals:
+                    continue
+                if all((not v) for n, v in enumerate(vals) if n > max_len) and any(vals):
+                    for s_ in cfg.succ(t, lab):
+                        out.add(s_)
+    return out
+
+
+def resolve_locals(fnode, expr, keep=(), max_rounds=6):
+    """Copy of ``expr`` in which every local that has exactly one binding in the function is replaced by what it was
+    bound to, when that is a value-like expression (names, attributes, subscripts, arithmetic, comparisons) or one
+    position of an unpacked value (`a, b = x` gives a -> x[0]).  Shape-independent comparison of conditions and
+    returned values: `best, second = d[0][1], d[1][1]; if best < second` reads as `d[0][1] < d[1][1]`."""
+    from .derefactor import _value_like, _clone
+
+    bind = {}
+    counts = {}
+    for n in walk_function(fnode):
+        if isinstance(n, ast.Name) and isinstance(n.ctx, (ast.Store, ast.Del)):
+            counts[n.id] = counts.get(n.id, 0) + 1
+    a = fnode.args
+    params = {x.arg for x in a.posonlyargs + a.args + a.kwonlyargs}
+    for n in walk_function(fnode):
+        if isinstance(n, ast.Assign) and len(n.targets) == 1:
+            t, v = n.targets[0], n.value
+            if isinstance(t, ast.Name) and counts.get(t.id) == 1 and t.id not in params and t.id not in keep and _value_like(v):
+                bind[t.id] = v
+            elif isinstance(t, (ast.Tuple, ast.List)):
+                for i, el in enumerate(t.elts):
+                    if isinstance(el, ast.Name) and counts.get(el.id) == 1 and el.id not in params and el.id not in keep:
+                        if isinstance(v, (ast.Tuple, ast.List)) and len(v.elts) == len(t.elts):
+                            if _value_like(v.elts[i]):
+                                bind[el.id] = v.elts[i]
+                        elif _value_like(v):
+                            bind[el.id] = ast.Subscript(value=v, slice=ast.Constant(value=i), ctx=ast.Load())
+
+    class S(ast.NodeTransformer):
+        def __init__(self):
+            self.changed = False
+
+        def visit_Name(self, node):
+            if isinstance(node.ctx, ast.Load) and node.id in bind:
+                self.changed = True
+                return _clone(bind[node.id])
+            return node
+
+    e = _clone(expr)
+    holder = ast.Expression(body=e)
+    for _ in range(max_rounds):
+        s_ = S()
+        s_.visit(holder)
+        if not s_.changed:
+            break
+    return holder.body
+
+
+def resolved_guard_atoms(cfg, fnode, node, keep=()):
+    """Guard atoms of a CFG node with single-binding locals resolved (see resolve_locals)."""
+    from .norm import atoms
+
+    out = set()
+    for t, lab in cfg.dominating_edges(node):
+        if cfg.kind(t) == "test" and lab in ("true", "false"):
+            out |= atoms(resolve_locals(fnode, cfg.ast(t), keep), lab == "true")
+    return out
+
+
+def list_shape(fnode, name):
+    """Symbolic contents of the list bound to local ``name``: [("one", expr) | ("each", elt_expr, target_text, iter_text)],
+    from its single definition (list display, comprehension, `+` of those) followed by append / extend / += in source
+    order.  None when the list is built in a way this does not understand."""
+    from .norm import u
+
+    def from_expr(e, depth=0):
+        if isinstance(e, ast.List):
+            return [("one", x) for x in e.elts]
+        if isinstance(e, ast.ListComp) and len(e.generators) == 1 and not e.generators[0].ifs:
+            g = e.generators[0]
+            return [("each", e.elt, u(g.target), u(g.iter))]
+        if isinstance(e, ast.BinOp) and isinstance(e.op, ast.Add):
+            a_, b_ = from_expr(e.left, depth), from_expr(e.right, depth)
+            return None if a_ is None or b_ is None else a_ + b_
+        if isinstance(e, ast.Name) and depth < 3:
+            d = single_def(fnode, e.id)
+            if d is not None and isinstance(d, (ast.List, ast.ListComp, ast.BinOp)):
+                return from_expr(d, depth + 1)
+        if isinstance(e, ast.Call) and isinstance(e.func, ast.Name) and e.func.id == "list" and len(e.args) == 1:
+            return from_expr(e.args[0], depth)
+        return None
+
+    defs = [(s, v) for s, v in assignments_to(fnode, name) if not (isinstance(v, tuple) and v[0] == "aug")]
+    if len(defs) != 1 or not isinstance(defs[0][1], ast.AST):
+        return None
+    parts = from_expr(defs[0][1])
+    if parts is None:
+        return None
+    events = []
+    for n in walk_function(fnode):
+        if isinstance(n, ast.Call) and isinstance(n.func, ast.Attribute) and isinstance(n.func.value, ast.Name) and n.func.value.id == name and n.func.attr in MUTATORS:
+            events.append((n.lineno, n.col_offset, "call", n))
+        elif isinstance(n, ast.AugAssign) and isinstance(n.target, ast.Name) and n.target.id == name:
+            events.append((n.lineno, n.col_offset, "aug", n))
+    for _, _, kind, n in sorted(events, key=lambda t: t[:2]):
+        if kind == "aug":
+            more = from_expr(n.value) if isinstance(n.op, ast.Add) else None
+            if more is None:
+                return None
+            parts += more
+            continue
+        if n.func.attr == "append" and len(n.args) == 1:
+            st = stmt_of(n)
+            lp = getattr(st, "parent", None)
+            if isinstance(lp, ast.For) and len(lp.body) == 1 and lp.body[0] is st and not lp.orelse:
+                parts.append(("each", n.args[0], u(lp.target), u(lp.iter)))
+            elif isinstance(lp, (ast.For, ast.While)):
+                return None
+            else:
+                parts.append(("one", n.args[0]))
+        elif n.func.attr == "extend" and len(n.args) == 1:
+            more = from_expr(n.args[0])
+            if more is None:
+                return None
+            parts += more
+        elif n.func.attr == "sort":
+            continue
+        else:
+            return None
+    return parts
